@@ -381,10 +381,10 @@ impl ToInternedString for ObjectPatternElement {
                     PropertyName::Literal(name) if name == ident => {
                         format!(" {}", interner.resolve_expect(ident.sym()))
                     }
-                    PropertyName::Literal(name) => {
+                    key @ PropertyName::Literal(_) => {
                         format!(
                             " {} : {}",
-                            interner.resolve_expect(name.sym()),
+                            key.to_interned_string(interner),
                             interner.resolve_expect(ident.sym())
                         )
                     }
@@ -413,10 +413,10 @@ impl ToInternedString for ObjectPatternElement {
                 default_init,
             } => {
                 let mut buf = match name {
-                    PropertyName::Literal(name) => {
+                    key @ PropertyName::Literal(_) => {
                         format!(
                             " {} : {}",
-                            interner.resolve_expect(name.sym()),
+                            key.to_interned_string(interner),
                             access.to_interned_string(interner)
                         )
                     }
@@ -439,10 +439,10 @@ impl ToInternedString for ObjectPatternElement {
                 default_init,
             } => {
                 let mut buf = match name {
-                    PropertyName::Literal(name) => {
+                    key @ PropertyName::Literal(_) => {
                         format!(
                             " {} : {}",
-                            interner.resolve_expect(name.sym()),
+                            key.to_interned_string(interner),
                             pattern.to_interned_string(interner),
                         )
                     }
